@@ -104,6 +104,8 @@ impl<'a> Parser<'a> {
         span: Span,
     ) -> Result<(ast::AttrVec, ThinVec<ptr::P<ast::Item>>, Span), ParserError> {
         let result = catch_unwind(AssertUnwindSafe(|| {
+            #[cfg(rustfmt_verif)]
+            crate::verif::panic_point("parse_module");
             let mut parser =
                 unwrap_or_emit_fatal(new_parser_from_file(psess.inner(), path, Some(span)));
             match parser.parse_mod(exp!(Eof)) {
@@ -124,6 +126,8 @@ impl<'a> Parser<'a> {
                 Ok(m)
             }
             Ok(_) => Err(ParserError::ParseError),
+            #[cfg(rustfmt_verif)]
+            Err(..) if crate::verif::note_panic_caught("modparse") => unreachable!(),
             Err(..) if path.exists() => Err(ParserError::ParseError),
             Err(_) => Err(ParserError::ParsePanicError),
         }
